@@ -139,6 +139,16 @@ func (e *env) govCase(k govCase) string {
 	failAt, failText := -1, ""
 	{
 		S, _ := B.CacheContext()
+		// the end blocker hands the deposits back (or burns them) BEFORE the messages run: the gov account no longer holds them
+		pS, err := gk.Proposals.Get(S, id)
+		lib.Must(err)
+		_, burnS, _, err := gk.Tally(S, pS)
+		lib.Must(err)
+		if burnS {
+			lib.Must(gk.DeleteAndBurnDeposits(S, id))
+		} else {
+			lib.Must(gk.RefundAndDeleteDeposits(S, id))
+		}
 		for i, m := range msgs {
 			_, err := gk.Router().Handler(m)(S, m)
 			if err != nil {
@@ -165,7 +175,7 @@ func (e *env) govCase(k govCase) string {
 		p2.FinalTallyResult = &tally
 		lib.Must(gk.SetProposal(B2, p2))
 		if diff := lib.DiffDumps(c.DumpAll(B2), post); len(diff) > 0 {
-			e.rep.Fail(lib.Failure{Kind: "monitor", Sig: fmt.Sprintf("C18:gov:fail-at-%d-of-%d", failAt, len(msgs)),
+			e.failSig(lib.Failure{Kind: "monitor", Sig: fmt.Sprintf("C18:gov:fail-at-%d-of-%d", failAt, len(msgs)),
 				What:   "state after a passed proposal whose message failed differs from 'proposal marked failed'",
 				Replay: map[string]interface{}{"case": k, "diff(-designated,+real)": diff}})
 		}
